@@ -88,6 +88,35 @@ def linear(node, env=None, depth=0):
     return None
 
 
+def alternatives(node, env=None, depth=0):
+    """All linear forms a (possibly conditional) expression may take."""
+    env = env or {}
+    if depth > 6:
+        return None
+    if isinstance(node, ast.Name) and node.id in env:
+        return alternatives(env[node.id], env, depth + 1)
+    if isinstance(node, ast.IfExp):
+        a, b = alternatives(node.body, env, depth + 1), alternatives(node.orelse, env, depth + 1)
+        if a is None or b is None:
+            return None
+        return a + b
+    if isinstance(node, ast.BinOp) and isinstance(node.op, (ast.Add, ast.Sub)):
+        a, b = alternatives(node.left, env, depth + 1), alternatives(node.right, env, depth + 1)
+        if a is None or b is None:
+            return None
+        out = []
+        for x in a:
+            for y in b:
+                r = dict(x)
+                sign = 1 if isinstance(node.op, ast.Add) else -1
+                for k, c in y.items():
+                    r[k] = r.get(k, 0) + sign * c
+                out.append(r)
+        return out
+    f = linear(node, env, depth)
+    return None if f is None else [f]
+
+
 def nonneg(form) -> bool:
     """form >= 0 for all symbol values >= 1."""
     # worst case: every symbol at its minimum (1) when coefficient >= 0;
@@ -270,20 +299,29 @@ def action_and_edge_ranges(ctx):
         ("machine", {1: -1}, {"num_machines": 1, 1: -1}, "-1 (single-machine sentinel) and machine ids 0..num_machines-1"),
     ]
     for i, (what, lo_need, hi_need, txt) in enumerate(need):
-        nv, st = linear(nvec[i], env), linear(start[i], env)
-        if nv is None or st is None:
-            raise AnalysisError(f"action_space component {i}: not a linear expression")
-        hi = sub({**nv, 1: nv.get(1, 0) + st.get(1, 0)} if set(st) <= {1} else None, {1: 1}) if set(st) <= {1} else None
-        if hi is None:
-            raise AnalysisError("action_space start is symbolic")
-        ok_lo = nonneg(sub(lo_need, st))
-        ok_hi = nonneg(sub(hi, hi_need))
-        if ok_lo and ok_hi:
-            chk.ok("R18.b", init.qualname, init.loc(act), f"{what} component [{fmt(st)}, {fmt(hi)}] ⊇ {txt}")
+        nvs, sts = alternatives(nvec[i], env), alternatives(start[i], env)
+        if nvs is None or sts is None:
+            raise AnalysisError(f"action_space component {i}: not a (conditional) linear expression")
+        bad = None
+        shown = None
+        for nv in nvs:
+            for st in sts:
+                if not set(st) <= {1}:
+                    raise AnalysisError("action_space start is symbolic")
+                hi = sub({**nv, 1: nv.get(1, 0) + st.get(1, 0)}, {1: 1})
+                shown = (st, hi)
+                ok_lo = nonneg(sub(lo_need, st))
+                ok_hi = nonneg(sub(hi, hi_need))
+                if not (ok_lo and ok_hi) and bad is None:
+                    bad = (st, hi, ok_lo)
+        if bad is None:
+            st, hi = shown
+            chk.ok("R18.b", init.qualname, init.loc(act), f"{what} component [{fmt(st)}, {fmt(hi)}] ⊇ {txt}" + (" (all conditional alternatives)" if len(nvs) * len(sts) > 1 else ""))
         else:
+            st, hi, ok_lo = bad
             chk.violation(
                 "R18.b", init, act,
-                f"action space {what} component is [{fmt(st)}, {fmt(hi)}] but legal decisions need {txt}: "
+                f"action space {what} component can be [{fmt(st)}, {fmt(hi)}] but legal decisions need {txt}: "
                 + ("the lowest legal value is excluded" if not ok_lo else f"the legal {what} id {fmt(hi_need)} is not in the declared space"),
                 loc=init.loc(act),
             )
@@ -475,8 +513,63 @@ def padding(ctx):
             chk.violation("R18.e", ap, full[0], "the padded array is not pre-filled with padding_value", loc=ap.loc(full[0]))
 
 
+def freshness(ctx):
+    """R18.f - every observation is derived from the *current* graph and
+    freshly padded: no path returns a stored array."""
+    chk, repo = ctx.chk, ctx.repo
+    single = repo.find_class("SingleJobShopGraphEnv")
+    gei = single.methods.get("_get_edge_index")
+    go = single.methods.get("get_observation")
+    if gei is None or go is None:
+        raise AnalysisError("_get_edge_index/get_observation vanished")
+    eng = ctx.engine(relevant=lambda e: False, max_depth=0)
+    bad = False
+    n = 0
+    for p in eng.paths(gei, single):
+        if p.outcome != "return":
+            continue
+        n += 1
+        if not any(e.kind == "call" and e.data.get("attr") == "edges" for e in p.events):
+            bad = True
+            chk.violation(
+                "R18.f", gei, p.events[-1].node,
+                "a path of _get_edge_index returns without reading the current graph's edges(): the observation "
+                "can show the edge list of an earlier step (stale cache)",
+                loc=p.events[-1].loc, path=p.describe(),
+            )
+            break
+    if not bad and n:
+        chk.ok("R18.f", gei.qualname, gei.loc(), f"{n} return paths read graph.edges() of the current graph")
+    src = ast.unparse(go.node)
+    if "self.job_shop_graph.removed_nodes" in src and "self._get_edge_index()" in src:
+        chk.ok("R18.f", go.qualname, go.loc(), "mask and edge index rebuilt from the current graph on every call")
+    else:
+        chk.violation("R18.f", go, None, "get_observation does not rebuild the removed-nodes mask / edge index from the current graph")
+    multi = repo.find_class("MultiJobShopGraphEnv")
+    f = multi.methods.get("_add_padding_to_observation")
+    loops = [x for x in own_nodes(f.node) if isinstance(x, ast.For)]
+    if len(loops) != 1:
+        raise AnalysisError("_add_padding_to_observation: loop not recognised")
+    lp = loops[0]
+    direct = [
+        st for st in lp.body
+        if isinstance(st, ast.Assign) and isinstance(st.targets[0], ast.Subscript) and isinstance(st.value, ast.Call)
+        and (dotted(st.value.func) or "") == "add_padding"
+    ]
+    if direct:
+        chk.ok("R18.f", f.qualname, f.loc(direct[0]), "every array is re-padded into a fresh array on every call")
+    else:
+        chk.violation(
+            "R18.f", f, lp,
+            "padded arrays are not rebuilt by add_padding on every call (conditional / cached buffers): after a "
+            "larger episode the tail of a smaller observation keeps old values instead of the declared fill value",
+            loc=f.loc(lp),
+        )
+
+
 def run(ctx):
     chk = ctx.chk
+    chk.rule("R18.f", "observations are rebuilt from the current graph and freshly padded on every call (no stored arrays)")
     chk.rule("R18.a", "MultiJobShopGraphEnv.reset forwards every configuration keyword the constructor forwards, from the attribute storing that argument")
     chk.rule("R18.b", "declared MultiDiscrete ranges contain every legal job id, machine id (and -1), node id (and -1)")
     chk.rule("R18.c", "truncated is constantly False; done = schedule.is_complete() after the dispatch; multi env passes them through")
@@ -487,3 +580,4 @@ def run(ctx):
     step_flags(ctx)
     key_agreement(ctx)
     padding(ctx)
+    freshness(ctx)
